@@ -251,6 +251,10 @@ class LSMTree(Entity):
         # Immutable memtables awaiting flush (for reads during flush)
         self._immutable_memtables: list[Memtable] = []
 
+        # Only one compaction runs at a time (a second one would work on a
+        # stale snapshot of the levels while the first is writing its output)
+        self._compaction_in_progress: bool = False
+
         # SSTable levels: levels[0] is L0 (most recent)
         self._levels: list[list[SSTable]] = [[] for _ in range(max_levels)]
 
@@ -556,7 +560,16 @@ class LSMTree(Entity):
             self._compact_sync()
 
     def _compact(self) -> Generator[float]:
-        """Run a compaction cycle."""
+        """Run a compaction cycle (skipped while another one is in progress)."""
+        if self._compaction_in_progress:
+            return
+        self._compaction_in_progress = True
+        try:
+            yield from self._compact_once()
+        finally:
+            self._compaction_in_progress = False
+
+    def _compact_once(self) -> Generator[float]:
         source_level, sstables = self._compaction_strategy.select_compaction(self._levels)
         if not sstables:
             return
@@ -667,6 +680,7 @@ class LSMTree(Entity):
         if self._clock is not None:
             self._memtable.set_clock(self._clock)
         self._immutable_memtables.clear()
+        self._compaction_in_progress = False
 
         # Crash WAL — discard unsynced entries
         wal_lost = 0
